@@ -15,9 +15,9 @@ def check(repo, rep, tier):
                        'check with a sentinel "next clause") to turn YieldBreak into an exit from the one function that holds all '
                        'clauses of the predicate; the engine never interprets a value yielded by a predicate; combined '
                        'definitions are called as separate generators. Cuts in opaque positions are excluded by the statement.')
-    rc.rule_body_rules(cm, rep, 'C05.R', 'cut', scope)
-    rc.rule_templates_implement_minilanguage(cm, rep, 'C05.B1', depth=3, width=2, scope=2, limit=None if tier == 'thorough' else 1500)
-    re_.rule_program_keys(cm, rep, 'C05.F1')
-    rq.rule_values_never_inspected(em, rep, 'C05.F2')
-    rq.rule_combine_order(em, rep, 'C05.F3')
-    rc.rule_compiler_bounded(cm, rep, 'C05.R2', depth=3, scope=3 if tier == 'thorough' else 2, combs=4 if tier == 'thorough' else 0)
+    rep.run(rc.rule_body_rules, cm, rep, 'C05.R', 'cut', scope)
+    rep.run(rc.rule_templates_implement_minilanguage, cm, rep, 'C05.B1', depth=3, width=2, scope=2, limit=None if tier == 'thorough' else 1500)
+    rep.run(re_.rule_program_keys, cm, rep, 'C05.F1')
+    rep.run(rq.rule_values_never_inspected, em, rep, 'C05.F2')
+    rep.run(rq.rule_combine_order, em, rep, 'C05.F3')
+    rep.run(rc.rule_compiler_bounded, cm, rep, 'C05.R2', depth=3, scope=3 if tier == 'thorough' else 2, combs=4 if tier == 'thorough' else 0)
